@@ -189,14 +189,46 @@ theorem C10_snref_unique (name : String) (items : List Obj) (exp : Option String
     rw [hf] at hu
     exact ⟨by intro o; simp [← hu o], Or.inl (by simp)⟩
 
+/-- `l` is reached from `t` by `n` PARENT-REF steps (any parent of a layer, not only its first one) -/
+inductive ParentPath (all : List Layer) (res : Resolved) : Nat → Layer → Layer → Prop
+  | refl (t : Layer) : ParentPath all res 0 t t
+  | step {n : Nat} {t p l : Layer} : p ∈ parentsOf all res t → ParentPath all res n p l →
+      ParentPath all res (n + 1) t l
+
+/-- the layers `retarget_snrefs` visits are exactly the layers reachable over PARENT-REFs (through
+    whichever parent, in a hierarchy that branches arbitrarily) by a path of at most `fuel` steps -/
+theorem C10_retarget_reach (all : List Layer) (res : Resolved) (fuel : Nat) (t l : Layer) :
+    l ∈ reach all res fuel t ↔ ∃ n, n ≤ fuel ∧ ParentPath all res n t l := by
+  induction fuel generalizing t with
+  | zero =>
+    simp only [reach, List.mem_singleton]
+    constructor
+    · rintro rfl; exact ⟨0, Nat.le_refl _, .refl _⟩
+    · rintro ⟨n, hn, hp⟩
+      cases hp with
+      | refl => rfl
+      | step _ _ => omega
+  | succ fuel ih =>
+    simp only [reach, List.mem_cons, List.mem_flatMap]
+    constructor
+    · rintro (rfl | ⟨p, hp, hl⟩)
+      · exact ⟨0, Nat.zero_le _, .refl _⟩
+      · obtain ⟨n, hn, hpath⟩ := (ih p).1 hl
+        exact ⟨n + 1, by omega, .step hp hpath⟩
+    · rintro ⟨n, hn, hpath⟩
+      cases hpath with
+      | refl => exact Or.inl rfl
+      | step hp hrest => exact Or.inr ⟨_, hp, (ih _).2 ⟨_, by omega, hrest⟩⟩
+
 /-- **Re-targeting.** If `retarget_snrefs(db, T)` succeeds, every short-name reference of `T` and of each
-    of its ancestors is bound to the uniquely named object among the candidates visible *in `T`*. -/
+    of its direct and indirect parents — through whichever PARENT-REF of a layer with several parents the
+    owner is reached — is bound to the uniquely named object among the candidates visible *in `T`*. -/
 theorem C10_retarget (all : List Layer) (res : Resolved) (t : Layer) (out : Resolved)
     (h : retarget all res t = .ok out) :
-    ∀ l ∈ chain all res all.length t, ∀ s ∈ l.snrefs,
+    ∀ l ∈ reach all res all.length t, ∀ s ∈ l.snrefs,
       ∃ o, (s.key, o.uid) ∈ out ∧ UniquelyNamed (candidates all res t s) s.name o ∧ o.isInst s.exp = true := by
   unfold retarget at h
-  generalize chain all res all.length t = ch at h
+  generalize reach all res all.length t = ch at h
   have key : ∀ (ss : List SnRef) (r : Resolved), resolveSnrefs all res t ss = .ok r →
       ∀ s ∈ ss, ∃ o, (s.key, o.uid) ∈ r ∧ UniquelyNamed (candidates all res t s) s.name o
         ∧ o.isInst s.exp = true := by
@@ -245,6 +277,15 @@ theorem C10_retarget (all : List Layer) (res : Resolved) (t : Layer) (out : Reso
         · obtain ⟨o, ho, hu⟩ := ih rs h2 l hl s hs
           exact ⟨o, List.mem_append_right _ ho, hu⟩
 
+/-- the same, stated over paths: whatever layer is reachable from `T` over at most `all.length`
+    PARENT-REF steps has all its short-name references rebound to `T`'s view -/
+theorem C10_retarget_paths (all : List Layer) (res : Resolved) (t : Layer) (out : Resolved)
+    (h : retarget all res t = .ok out) (n : Nat) (hn : n ≤ all.length) (l : Layer)
+    (hp : ParentPath all res n t l) :
+    ∀ s ∈ l.snrefs,
+      ∃ o, (s.key, o.uid) ∈ out ∧ UniquelyNamed (candidates all res t s) s.name o ∧ o.isInst s.exp = true :=
+  C10_retarget all res t out h l ((C10_retarget_reach all res all.length t l).2 ⟨n, hn, hp⟩)
+
 /-! ## The pinned commit: `copy(odxlinks)` was an alias — `C10_import_local` fails
 
     Container `C2` with ECU-SHARED-DATA `S` (defines id `d`); container `C` with base variant `A` (imports
@@ -261,13 +302,13 @@ def oB : Obj := ⟨3, ["DiagLayer"], "B"⟩
 def dS : Obj := ⟨4, ["DopBase"], "temperature"⟩
 def dA : Obj := ⟨5, ["DopBase"], "temperature"⟩
 def lS : Layer := { obj := oS, frags := [fC2, fS], isEsd := true, links := [(⟨"S", [fC2, fS]⟩, oS), (⟨"d", [fC2, fS]⟩, dS)],
-                    importRefs := [], parentKey := none, refs := [], snrefs := [], locals := [("dops", [dS])] }
+                    importRefs := [], parentKeys := [], prio := 3, refs := [], snrefs := [], locals := [("dops", [dS])] }
 def lA : Layer := { obj := oA, frags := [fC, fA], isEsd := false, links := [(⟨"A", [fC, fA]⟩, oA), (⟨"x", [fC, fA]⟩, dA)],
-                    importRefs := [⟨"S", [fC2]⟩], parentKey := none,
+                    importRefs := [⟨"S", [fC2]⟩], parentKeys := [], prio := 3,
                     refs := [⟨"A.p.dop", ⟨"d", [fC, fA]⟩, none⟩, ⟨"A.q.dop", ⟨"x", [fC, fA]⟩, none⟩],
                     snrefs := [], locals := [("dops", [dA])] }
 def lB : Layer := { obj := oB, frags := [fC, fB], isEsd := false, links := [(⟨"B", [fC, fB]⟩, oB), (⟨"x", [fC, fB]⟩, dA)],
-                    importRefs := [], parentKey := none,
+                    importRefs := [], parentKeys := [], prio := 3,
                     refs := [⟨"B.p.dop", ⟨"d", [fC, fB]⟩, none⟩], snrefs := [], locals := [] }
 def all : List Layer := [lS, lA, lB]
 end Ex
@@ -355,12 +396,74 @@ example :
     let dP : Obj := ⟨12, ["DopBase"], "temperature"⟩
     let dV : Obj := ⟨13, ["DopBase"], "temperature"⟩
     let lP : Layer := { obj := oP, frags := [Ex.fC, fP], isEsd := false, links := [(⟨"P", [Ex.fC, fP]⟩, oP), (⟨"t", [Ex.fC, fP]⟩, dP)],
-                        importRefs := [], parentKey := none, refs := [],
+                        importRefs := [], parentKeys := [], prio := 3, refs := [],
                         snrefs := [⟨"P.req.p.dop", "temperature", ["dops"], [], some "DopBase"⟩], locals := [("dops", [dP])] }
     let lV : Layer := { obj := oV, frags := [Ex.fC, fV], isEsd := false, links := [(⟨"V", [Ex.fC, fV]⟩, oV), (⟨"t", [Ex.fC, fV]⟩, dV)],
-                        importRefs := [], parentKey := some "V.parent", refs := [⟨"V.parent", ⟨"P", [Ex.fC, fV]⟩, some "DiagLayer"⟩],
+                        importRefs := [], parentKeys := ["V.parent"], prio := 4, refs := [⟨"V.parent", ⟨"P", [Ex.fC, fV]⟩, some "DiagLayer"⟩],
                         snrefs := [], locals := [("dops", [dV])] }
     (refresh [] [lP, lV]).map (·.snrefs) = .ok [("P.req.p.dop", 12)] ∧
     retarget [lP, lV] [("V.parent", 10)] lV = .ok [("P.req.p.dop", 13)] := by decide
+
+/-! re-targeting in a hierarchy that branches: ECU variant `E` derives from base variant `B`, which has
+    the two functional groups `F` and `G` as parents (in this order). `F` and `G` each own a DOP-SNREF
+    (`x` resp. `y`) and a DOP of that name; `E` overrides both. -/
+namespace Ex2
+def fr (n : String) : List Frag := [Ex.fC, ⟨n, "LAYER"⟩]
+def oF : Obj := ⟨20, ["DiagLayer"], "F"⟩
+def oG : Obj := ⟨21, ["DiagLayer"], "G"⟩
+def oB : Obj := ⟨22, ["DiagLayer"], "B"⟩
+def oE : Obj := ⟨23, ["DiagLayer"], "E"⟩
+def xF : Obj := ⟨24, ["DopBase"], "x"⟩
+def yG : Obj := ⟨25, ["DopBase"], "y"⟩
+def xE : Obj := ⟨26, ["DopBase"], "x"⟩
+def yE : Obj := ⟨27, ["DopBase"], "y"⟩
+def lF : Layer := { obj := oF, frags := fr "F", isEsd := false, links := [(⟨"F", fr "F"⟩, oF)], importRefs := [],
+                    parentKeys := [], prio := 2, refs := [],
+                    snrefs := [⟨"F.req.p.dop", "x", ["dops"], [], some "DopBase"⟩], locals := [("dops", [xF])] }
+def lG : Layer := { obj := oG, frags := fr "G", isEsd := false, links := [(⟨"G", fr "G"⟩, oG)], importRefs := [],
+                    parentKeys := [], prio := 2, refs := [],
+                    snrefs := [⟨"G.req.p.dop", "y", ["dops"], [], some "DopBase"⟩], locals := [("dops", [yG])] }
+def lB : Layer := { obj := oB, frags := fr "B", isEsd := false, links := [(⟨"B", fr "B"⟩, oB)], importRefs := [],
+                    parentKeys := ["B.parent0", "B.parent1"], prio := 3,
+                    refs := [⟨"B.parent0", ⟨"F", fr "B"⟩, some "DiagLayer"⟩, ⟨"B.parent1", ⟨"G", fr "B"⟩, some "DiagLayer"⟩],
+                    snrefs := [], locals := [] }
+def lE : Layer := { obj := oE, frags := fr "E", isEsd := false, links := [(⟨"E", fr "E"⟩, oE)], importRefs := [],
+                    parentKeys := ["E.parent0"], prio := 4,
+                    refs := [⟨"E.parent0", ⟨"B", fr "E"⟩, some "DiagLayer"⟩],
+                    snrefs := [], locals := [("dops", [xE, yE])] }
+def all : List Layer := [lF, lG, lB, lE]
+def res : Resolved := [("B.parent0", 20), ("B.parent1", 21), ("E.parent0", 22)]
+end Ex2
+
+/-- after `refresh` each reference is bound to its owner's DOP; after `retarget` to `E` *both* — also the
+    one owned by `B`'s second parent — are bound to `E`'s DOPs; re-targeting to `B` binds them to the
+    functional groups' DOPs again; `G` is reached by a path of two steps through `B`'s second PARENT-REF -/
+example :
+    (refresh [] Ex2.all).map (·.links) = .ok Ex2.res ∧
+    (refresh [] Ex2.all).map (·.snrefs) = .ok [("F.req.p.dop", 24), ("G.req.p.dop", 25)] ∧
+    (reach Ex2.all Ex2.res Ex2.all.length Ex2.lE).map (·.obj.uid) = [23, 22, 20, 21] ∧
+    retarget Ex2.all Ex2.res Ex2.lE = .ok [("F.req.p.dop", 26), ("G.req.p.dop", 27)] ∧
+    retarget Ex2.all Ex2.res Ex2.lB = .ok [("F.req.p.dop", 24), ("G.req.p.dop", 25)] ∧
+    ParentPath Ex2.all Ex2.res 2 Ex2.lE Ex2.lG := by
+  refine ⟨by decide, by decide, by decide, by decide, by decide, ?_⟩
+  have h1 : parentsOf Ex2.all Ex2.res Ex2.lE = [Ex2.lB] := by rfl
+  have h2 : parentsOf Ex2.all Ex2.res Ex2.lB = [Ex2.lF, Ex2.lG] := by rfl
+  exact .step (p := Ex2.lB) (by rw [h1]; simp) (.step (p := Ex2.lG) (by rw [h2]; simp) (.refl _))
+
+/-- value inheritance with several parents: an ECU-SHARED-DATA parent (priority 100) overrides what the
+    other parents offer, whatever the order of the PARENT-REFs; among parents of different priority the
+    higher one wins; local objects override everything -/
+example :
+    let mk (u : Nat) (n : String) (esd : Bool) (prio : Nat) (ps : List String) (loc : List Obj) : Layer :=
+      { obj := ⟨u, ["DiagLayer"], n⟩, frags := [Ex.fC, ⟨n, "LAYER"⟩], isEsd := esd, links := [], importRefs := [],
+        parentKeys := ps, prio := prio, refs := [], snrefs := [], locals := [("dops", loc)] }
+    let lS := mk 1 "S" true 100 [] [⟨11, [], "x"⟩]
+    let lF := mk 2 "F" false 2 [] [⟨12, [], "x"⟩, ⟨13, [], "y"⟩]
+    let lB := mk 3 "B" false 3 ["B.p0"] [⟨14, [], "y"⟩, ⟨15, [], "z"⟩]
+    let lE := mk 4 "E" false 4 ["E.p0", "E.p1", "E.p2"] [⟨16, [], "z"⟩]
+    let all := [lS, lF, lB, lE]
+    let res : Resolved := [("B.p0", 2), ("E.p0", 2), ("E.p1", 3), ("E.p2", 1)]
+    (visible all res "dops" all.length lE).map (·.uid) = [11, 14, 16] ∧
+    (visible all res "dops" all.length lB).map (·.uid) = [12, 14, 15] := by decide
 
 end OdxVerif.OdxLink
